@@ -208,6 +208,28 @@ CLAIMED = {
              "correspondence only (N-D identity is single-channel; channels proved in 1-D).",
         technique="Lean 4 proof over translator-generated formulas/branches + exhaustive exact differential correspondence",
         design="DESIGN.md §3 C08, §9"),
+    "C02": dict(
+        text="Lean 4 theorems: an effect/alias IR with a concrete store semantics and an abstract points-to analysis "
+             "(Model/C02.lean); analyze_sound (every concrete execution stays inside the analysis result, by induction over the "
+             "program with checked post-fixpoints for loops) and noMutation_sound (if the checker accepts a program then after every "
+             "execution every buffer that existed at entry - parameters, captured arrays - has its entry contents), ret_sound / "
+             "ret_fresh_disjoint (alias claims of results); 103 kernel-checked obligations `noMutation prog_f = true` (by decide) on "
+             "IR programs the translator regenerates every run from every Linop._apply / Linop.apply / Prox._prox / Prox.__call__ and "
+             "the public functions of util, fourier, interp, conv, block, wavelet, thresh, mri.util and their helpers "
+             "(Gen/Effects.lean, Gen/EffectsOk.lean), with summ_f_eq tying call-site summaries to callee analyses; denote_linear "
+             "(any entry-list map is additive and homogeneous), conj_sandwich_linear / conj_half_antilinear (Conj is C-linear; "
+             "dropping one conjugate is not); history_determinism (an _apply that reads only constructor parameters and writes nothing "
+             "gives, in every interleaving of apply/.H/.N, the output a fresh object gives). Tie: translator every run + runtime "
+             "stream on the real code validating the numpy view/copy table (byte snapshots of all arguments and captured arrays, "
+             "np.shares_memory vs the IR's alias claims, repeated calls, exact linearity on Gaussian integers).",
+        note="Trusted: Lean kernel; translator gen_c02 and its numpy view/copy table (validated by the runtime stream, not proved); "
+             "call = any behaviour within the callee's summary (assume-guarantee, no interprocedural semantics); stores through a "
+             "subscript are value copies unless the base is a known container; needsRuntime: util.monte_carlo_sure (user callback), "
+             "AllReduce (MPI); in place by contract: util.axpy, util.xpay, fourier._apodize, Alg classes; CuPy arms skipped; "
+             "LinearLeastSquares._get_* closures and linearity/determinism of FFT/NUFFT/wavelet/Kaiser-Bessel paths are runtime only "
+             "(complex64 linearity tolerance 2e-4 = 1e3 x observed rounding; complex128 1e-10).",
+        technique="Lean 4 proof (sound no-mutation analysis, kernel-evaluated per function on translator-generated IR) + runtime validation",
+        design="DESIGN.md §3 C02, §9"),
 }
 NOT_YET = "check not built yet in this round (framework exists; see DESIGN.md §8 build order)"
 
